@@ -336,6 +336,12 @@ func c02r4(r *R) {
 		{"(*forwarder.HTTPProxy).errorResponse", "header:Set X-Forwarder-Error"}:   "locally generated error",
 		{"(*forwarder.HTTPProxy).errorResponse", "header:Set Content-Type"}:        "locally generated error",
 	}
+	for k, v := range allowed {
+		if o := outerName(k.fn); o != k.fn {
+			delete(allowed, k)
+			allowed[key{o, k.what}] = v
+		}
+	}
 	used := map[key]bool{}
 	for _, fn := range requestPathFuncs(r) {
 		for _, w := range messageWrites(fn) {
@@ -345,7 +351,7 @@ func c02r4(r *R) {
 			if strings.HasPrefix(fname(fn), "(martian.proxyHandler).writeResponse") || strings.HasPrefix(fname(fn), "martian.copyHeader") || strings.HasPrefix(fname(fn), "martian.addTrailerHeader") || strings.HasPrefix(fname(fn), "(martian.proxyHandler).tunnel") {
 				continue // writes to the http.ResponseWriter's header: that is the act of replying
 			}
-			k := key{fname(fn), w.what}
+			k := key{outerName(fname(fn)), w.what}
 			why, ok := allowed[k]
 			used[k] = true
 			r.check(ok, fname(fn)+"#"+w.what, w.at.Pos(), why, "the relayed response is changed here ("+w.what+" := "+w.val+"); only hop-by-hop removal, configured rules and the listed fix-ups may touch it")
